@@ -190,3 +190,136 @@ H(P, "c16", "c16_alpha_variants", ("bare",), "channels on the lattice {0,51,...,
 H(P, "c16", "c16_packing", ("bare",), "all 2^32 RGBA words", "byte order of to_rgb_u32/to_rgba_u32/to_argb_u32; to_rgb/to_rgba keep channels, alpha 0xFF", est=5)
 H(P, "c16", "c16_float_to_u8_clamps", ("bare", "std"), "every 4 f32 bit patterns", "to_color3/4 == clamp then *255 truncated; NaN -> 0", est=120)
 H(P, "c16", "c16_u8_add_saturates", ("bare",), "every u8^3 x every i32^3 delta <= i32::MAX-255", "add saturates to [0,255]; sub exact", est=10)
+
+# ---------------------------------------------------------------- C04
+P = "C04"
+BOUNDS[P] = "every triangle (all vertex orders, both windings, flat tops/bottoms, slivers down to the lattice step) whose vertices lie on the half-pixel lattice of a 2x2-pixel grid: 5^6 coordinate tuples decided at once per case; shared edge: all 5^8 quadruples; cfg bare (quick), libm/std (thorough)"
+OUTSIDE[P] = ["triangles larger than 2 px (3x3 grid did not finish in 40 min)", "vertices off the half-pixel lattice (arbitrary floats): the 0.001-px tolerance band collapses to 'exactly on an edge' on the lattice", "partially off-grid triangles (negative coordinates)", "slivers thinner than the lattice step"]
+LEVEL_TEXT[P] = ("Bounded model checking of the real tri_fill/scan/ScanlineIter over every lattice triangle of a 2x2-pixel grid at once, against exact integer edge functions: "
+                 "strictly-inside centres exactly one fragment, strictly-outside none, on-edge at most one; rows strictly increasing; xs.len == fragment count; two triangles sharing an edge never double-draw or leave a gap.")
+for y in range(5):
+    H(P, "c04", f"c04_cover_g2_y{y}", ("bare",), f"all lattice triangles of the 2x2 grid with first-vertex y = {y}/2 (5^5 tuples, area != 0)", "coverage == integer edge functions; rows increasing; in grid; xs.len == #fragments; no pixel twice", unwind=6, est=250, cap=900)
+    H(P, "c04", f"c04_cover_g2_y{y}", ("std", "libm"), f"same under the floor-based rounding variants", "same", unwind=6, est=250, cap=2700, tiers=("thorough",))
+H(P, "c04", "c04_degenerate_g2", ("bare",), "all zero-area lattice triangles of the 2x2 grid", "no panic, rows increasing, in grid, no pixel twice", unwind=6, est=200, cap=900)
+for y in range(5):
+    H(P, "c04", f"c04_shared_edge_g2_y{y}", ("bare",), f"all pairs of lattice triangles on opposite sides of a shared edge pq, p.y = {y}/2", "no centre drawn twice in total; strictly inside either => exactly once; on the open shared edge => exactly once", unwind=6, est=1500, cap=2700, tiers=("thorough",))
+
+# ---------------------------------------------------------------- C05
+P = "C05"
+BOUNDS[P] = "fragments(): arbitrary Scanline, n <= 4 (scalar) / n <= 2 (compound types), finite floats, z in [1e-3,1e3]; tri_fill x affine attribute: all lattice triangles of the 2x2 grid x attribute planes with integer coefficients (alpha,beta in [-1,2], gamma in [-4,4]), w = 1"
+OUTSIDE[P] = ["perspective (w != 1) through tri_fill: tolerance proof over free floats did not finish in 30 min", "arbitrary float attributes / depths through tri_fill", "finiteness for arbitrary finite input with area > 1e-6", "Angle attributes (ZDiv is the identity by design)"]
+LEVEL_TEXT[P] = ("Bounded model checking: the per-fragment perspective division is decided bit-for-bit on arbitrary scanlines for scalar, vector, tuple and colour attributes; "
+                 "interpolation through tri_fill is decided exactly on the lattice for every affine attribute plane with small integer coefficients.")
+H(P, "c05", "c05_fragments_f32", ("bare",), "arbitrary Scanline<f32>: n<=4, start/step finite floats, z0 in [1e-3,1e3]", "fragment k at start+k*step; var == stepped value / own z, bitwise", unwind=6, est=120)
+H(P, "c05", "c05_fragments_compound", ("bare",), "Scanline<(f32,Vec3)>, <Vec2>, <Color3f>, <()>: n<=2, finite floats", "every component divided by the fragment's own z; () passes through", unwind=4, est=1200, cap=2700, tiers=("thorough",))
+H(P, "c05", "c05_fragments_color", ("bare",), "Scanline<Color3f>, one fragment, finite floats", "every colour channel divided by the fragment's own z", unwind=4, est=120)
+H(P, "c05", "c05_fragments_vec", ("bare",), "Scanline<Vec2> and <(f32,Vec3)>, one fragment, finite floats", "every component divided by the fragment's own z", unwind=4, est=120)
+H(P, "c05", "c05_scan_affine", ("bare",), "one lattice trapezoid (2x2 grid) through scan(), attribute = integer plane at the corners", "fragment at its pixel centre (y exact, x 1e-3), z == 1, var == plane(centre) within 1e-3", unwind=6, est=400, cap=1200)
+for y in range(5):
+    H(P, "c05", f"c05_affine_g2_y{y}", ("bare",), f"lattice triangles (first-vertex y = {y}/2) x integer attribute planes", "fragment at its pixel centre (y exact, x 1e-3), z == 1 and var == plane(centre) within 1e-3, finite", unwind=6, est=1300, cap=2700, tiers=("thorough",))
+
+# ---------------------------------------------------------------- C06
+P = "C06"
+BOUNDS[P] = "two arbitrary spans on one row of a 3-px Framebuf, arbitrary float depth start/step in (1e-3,1e3)x(-10,10), arbitrary colours, default Context; depth_test: every Option<Ordering> x every pair of floats; depth_sort: 3 triangles with distinct small-integer depths"
+OUTSIDE[P] = ["order independence of whole triangles through render() (pipeline not encodable); it follows from the per-pixel commutativity only by induction over the fragment stream", "more than two overlapping fragments per pixel in one query", "depth_sort on more than 3 triangles or on ties"]
+LEVEL_TEXT[P] = ("Bounded model checking of the write step: Framebuf::rasterize of two arbitrary overlapping spans commutes (depth always, colour unless an exact tie), each pixel keeps the nearest fragment; "
+                 "depth_test semantics for all float pairs; depth_sort (via cfg(kani) hook) yields the documented order.")
+H(P, "c06", "c06_two_spans_commute", ("bare",), "two arbitrary spans (x0,n,z0,dz,colour) on a 3-px row", "A;B == B;A (depth always, colour unless exact tie); pixel == nearest covering fragment; no NaN", unwind=5, est=500, cap=1500)
+H(P, "c06", "c06_depth_test_semantics", ("bare",), "every (new, curr) float pair incl. NaN/inf x {None, Less, Equal, Greater}", "None passes; Less <=> new > curr (reciprocal depth); default is Less", est=5)
+H(P, "c02", "c06_depth_sort_orders", ("bare",), "3 triangles, distinct integer depth sums in [-8,8], both sort directions", "permutation; FrontToBack ascending, BackToFront descending", unwind=8, est=60,
+  assumes=["reached through the cfg(kani) hook render::verif_hooks::depth_sort (a plain wrapper)"])
+
+# ---------------------------------------------------------------- C07
+P = "C07"
+BOUNDS[P] = "arbitrary span on a symbolic row of a 3x2 Framebuf / a 3x2 view at a symbolic offset of a 4x3 colour buffer; all combinations of color_write, depth_write, depth_test in {None,Less,Equal,Greater}, per-column discard mask; is_backface: all lattice triangles of a 64x64 screen, and all finite float triangles for antisymmetry; Stats counters < 2^31"
+OUTSIDE[P] = ["the cull-mode match and the statistics bookkeeping inside render() (calls/prims/verts before and after clipping and culling): only reachable through render(), which is not encodable", "image equality between the two windings with culling off (needs tri_fill on both: covered for coverage by C04's order independence)"]
+LEVEL_TEXT[P] = ("Bounded model checking of the configurable write step for both target kinds under every flag combination (colour/depth writes, depth predicate, discarding shader, Throughput in/out, shader invocation count), "
+                 "of the face-orientation predicate via a cfg(kani) hook, and of Stats accumulation.")
+H(P, "c06", "c07_framebuf_flags", ("bare",), "arbitrary span x flags x depth predicate x discard mask x arbitrary old buffer contents; inverted x-range allowed", "colour cell changes iff pass && !discard && color_write; depth iff pass && !discard && depth_write; io.i/io.o; shader called once per passing fragment; everything else untouched", unwind=8, est=500, cap=1500)
+H(P, "c06", "c07_colorbuf_flags", ("bare",), "colour-only target = strided sub-view at symbolic offset; flags, discard mask", "writes iff !discard && color_write, inside the view only; depth flags ignored; io", unwind=14, est=60)
+H(P, "c06", "c07_stats_add", ("bare",), "all counters symbolic < 2^31", "Stats += Stats and Throughput += Throughput add component-wise", unwind=18, est=30)
+H(P, "c02", "c07_backface_orientation", ("bare",), "all triangles on the half-pixel lattice of a 64x64 screen (129^6 tuples)", "is_backface == sign of exact integer orientation; swap flips, rotation keeps; degenerate is neither", est=300, cap=900,
+  assumes=["reached through the cfg(kani) hook render::verif_hooks::is_backface (a plain wrapper)"])
+H(P, "c02", "c07_backface_antisymmetric", ("bare",), "all finite float triangles |c| <= 1e6", "the two vertex orders are never both backfaces", est=60)
+
+# ---------------------------------------------------------------- C02
+P = "C02"
+BOUNDS[P] = "round_up_to_half: every float in [-0.5, 2^22); scan(): trapezoids up to 3 rows tall with edges within 1e-3 of any pixel rectangle inside 64x64 (arbitrary floats); tri_fill: all lattice triangles of the 2x2 grid incl. degenerate (shared with C04); rasterize: see C07 harnesses (writes only row y, columns xs)"
+OUTSIDE[P] = ["the clipper's guarantee |x|,|y|,|z| <= w (C03, not decidable here)", "accumulation of edge-stepping error over more than 3 rows", "every render()-level statement (composition)", "NaN / infinite coordinates into tri_fill"]
+LEVEL_TEXT[P] = ("Bounded model checking of the units that index buffers unchecked: the half-pixel rounding rule (all floats), the margin lemma through scan() on arbitrary floats near a viewport border, "
+                 "tri_fill on the lattice (no panic, in grid), and Target::rasterize writing only the addressed span. The composed pipeline is not claimed.")
+H(P, "c02", "c02_round_up_to_half", ALL4, "every f32 in [-0.5, 2^22)", "half-integer, >= x, within 1 of x, index == floor", est=5)
+H(P, "c02", "c02_scan_margin", ("bare", "std"), "arbitrary float trapezoid <= 3 rows, edges within 1e-3 of a pixel rectangle [l,r)x[t,b) in 64x64", "t <= y < b; l <= xs.start; max(xs.start,xs.end) <= r; rows increasing", unwind=5, est=600, cap=1500)
+H(P, "c04", "c04_degenerate_g2", ("bare",), "all zero-area lattice triangles", "no panic (partial_cmp().unwrap() included), in grid", unwind=6, est=200, cap=900)
+H(P, "c06", "c07_framebuf_flags", ("bare",), "arbitrary span / flags (see C07)", "only row y, columns xs of both buffers change; depth buffer NaN-free", unwind=8, est=500, cap=1500)
+
+# ---------------------------------------------------------------- C09
+P = "C09"
+BOUNDS[P] = "then/compose/transpose: arbitrary float matrices (bit identity); apply o compose: affine integer matrices, entries {-1..2} (4x4) / [-3,3] (3x3), integer probes; inverse: all M = P*D*T with P any axis permutation, D = diag(+-2^k), |k|<=2, T integer translation in [-3,3]^3; constructors: arbitrary finite floats <= 2^60; determinant: affine matrices with entries in {-1,0,1}"
+OUTSIDE[P] = ["inverse of arbitrary well-conditioned float matrices (tolerance proof over 16 free floats)", "rotate_x/y/z, orient_y/z: values of sin/cos/normalize (transcendentals have no solver semantics)", "apply() on *vectors* uses the homogeneous 1 (documented TODO in the source): translation leaks into vectors; recorded as a known finding, not asserted"]
+LEVEL_TEXT[P] = ("Bounded model checking with relational oracles (two runs of the real code must agree exactly) on integer / power-of-two families where float arithmetic is exact: "
+                 "composition vs sequential application, then vs compose, Gauss-Jordan inverse under every pivoting pattern, constructors' defining effects on arbitrary floats, multiplicative determinant.")
+H(P, "c09", "c09_then_is_compose_swapped", ("bare",), "arbitrary float 4x4 and 3x3 pairs", "a.then(b) bit-identical to b.compose(a)", unwind=6, est=60)
+H(P, "c09", "c09_apply_compose_4x4", ("bare",), "affine 4x4, entries in {-1,0,1,2}; probes in [-2,2]^3", "(A o B)v == A(Bv) exactly, vectors and points; then == swapped; bottom row stays affine", unwind=6, est=300, cap=900)
+H(P, "c09", "c09_apply_compose_3x3", ("bare",), "affine 3x3, entries in [-3,3]; probes in [-4,4]^2", "(A o B)v == A(Bv) exactly", unwind=6, est=120)
+for perm in ("012", "021", "102", "120", "201", "210"):
+    H(P, "c09", f"c09_inverse_perm_{perm}", ("bare",), f"M = P({perm}) * diag(+-2^k) * T, k in [-2,2], t in [-3,3]^3", "inverse() does not panic; M^-1 o M == I == M o M^-1 exactly", unwind=6, est=200, cap=900)
+H(P, "c09", "c09_constructors", ("bare",), "arbitrary finite floats |.| <= 2^60", "translate/scale/from_basis defining effect exactly; det(translate) == 1", unwind=6, est=120)
+H(P, "c09", "c09_scale_determinant", ("bare",), "integer scale factors in [-8,8]^3", "det(scale) == x*y*z; identity", unwind=6, est=30)
+H(P, "c09", "c09_det_multiplicative", ("bare",), "affine matrices with entries in {-1,0,1}", "det(A o B) == det(A)*det(B) exactly", unwind=6, est=400, cap=1200)
+H(P, "c09", "c09_transpose", ("bare",), "arbitrary float 4x4", "transpose swaps indices bitwise; involution", unwind=6, est=30)
+
+# ---------------------------------------------------------------- C08
+P = "C08"
+BOUNDS[P] = "perspective: f, aspect in 2^[-2,2], near in 2^[-4,4], far/near in 2^[1,10], depths near*2^j, x,y integers in [-8,8] (exact arithmetic); orthographic: integer corners, power-of-two extents; viewport: all u32 rectangles <= 4096; Rect algebra: all rects with optional bounds <= 8 against point membership; Camera: dims <= 64x64, requested viewports with bounds <= 100 in three range forms"
+OUTSIDE[P] = ["perspective on arbitrary float parameters (near/far -> -1/+1 within tolerance exceeded 15 min)", "FirstPerson (look_at, rotate_to, translate, world_to_view): atan2 / sin_cos / wrap values are transcendental or go through float %", "Camera::render (goes through render())"]
+LEVEL_TEXT[P] = ("Bounded model checking on exact (dyadic / integer) parameter families: perspective and orthographic map their view volume to the clip volume with near/far at the depth bounds and depth order preserved; "
+                 "viewport maps the NDC square onto the pixel rectangle exactly; Rect algebra against a point-membership oracle; Camera confines its viewport to the frame.")
+H(P, "c08", "c08_perspective_dyadic", ("bare",), "f,a in 2^[-2,2]; near in 2^[-4,4]; far = near*2^[1,10]; z = near*2^j; x,y in [-8,8]", "w == z; x_c == f x; y_c == f a y; near -> -1, far -> +1 (1e-6); order kept; side planes <=> pyramid", unwind=6, est=300, cap=900)
+H(P, "c08", "c08_perspective_rejects", ("bare",), "finite parameters with f<=0 or a<=0 or near<=0 or far<=near", "panics", kind="should_panic", est=20)
+H(P, "c08", "c08_orthographic_dyadic", ("bare",), "integer lbn in [-8,8]^3, extents 2^[0,4]", "corners -> (-1,-1,-1,1)/(1,1,1,1), centre -> origin", unwind=6, est=120)
+H(P, "c08", "c08_viewport_matrix", ("bare",), "all l<=r<=4096, t<=b<=4096; finite z", "(-1,-1)->(l,t); (1,1)->(r,b); centre->centre; z passes", unwind=6, est=60)
+H(P, "c08", "c08_rect_algebra", ("bare",), "two rects with optional bounds <= 8, probe point <= 9", "contains == membership; intersect == conjunction; is_empty/width/height", est=60)
+H(P, "c08", "c08_camera_viewport", ("bare",), "frame <= 64x64, requested bounds <= 100, forms (a..b,c..d) / (a..,..d) / vec..vec", "dims and NDC-corner images are those of bounds ∩ frame; always inside the frame; empty intersection => zero area", unwind=6, est=120)
+H(P, "c08", "c08_camera_projection", ("bare",), "dims <= 64x64, f in 2^[-2,2], integer view translation", "perspective(aspect = w/h); world_to_project == mode.then(project); orthographic passes the box", unwind=6, est=200, cap=900)
+
+# ---------------------------------------------------------------- C13
+P = "C13"
+BOUNDS[P] = "binary formats P5/P6: a fixed table of 12 header spellings (separators LF/TAB/CR/space, comments before and between fields, zero and overflowing dimensions) x arbitrary payload bytes (<= 9) x every truncation point; unsupported magic x 3 arbitrary tail bytes; round trip of 2x2 sub-views of a 3x3 image with arbitrary pixels (cfg std)"
+OUTSIDE[P] = ["arbitrary / mutated header text: any symbolic header digit makes parse_num (String + str::parse) time out", "text formats P2/P3 with symbolic samples and their agreement with P5/P6", "P4 bitmaps", "images larger than 3x3", "the header table is a finite hand-picked list: that half is test-like"]
+LEVEL_TEXT[P] = ("Bounded model checking of parse_pnm with concrete header text and fully symbolic binary payload/truncation: no panic, Ok => dimensions and pixel count match the header and pixels are the payload verbatim, "
+                 "short payload => Err; zero-sized and overflowing dimensions never panic; write_ppm -> read_pnm round trip on strided views.")
+for n, dom in [("c13_p6_2x1", "'P6 2 1 255\\n'"), ("c13_p6_1x3_tabs_cr", "'P6\\t1\\r\\n3\\n255 '"), ("c13_p6_comments", "P6 with comments before and between fields"), ("c13_p5_3x3", "'P5 3 3 255\\n'"), ("c13_p5_2x2_comment", "P5 with comments")]:
+    H(P, "c13", n, ("bare",), dom + " ++ 9 arbitrary payload bytes truncated at any point", "Ok <=> payload complete; dims/pixel count == header; pixels == payload bytes; else Err(UnexpectedEnd)", unwind=40, est=120, cap=900)
+for n, dom in [("c13_p6_0x3", "'P6 0 3 255\\n'"), ("c13_p6_2x0", "'P6 2 0 255\\n'"), ("c13_p5_0x0", "'P5 0 0 255\\n'")]:
+    H(P, "c13", n, ("bare",), dom + " ++ <= 4 arbitrary bytes", "Ok with the header's dims and no pixels; no panic", unwind=24, est=60)
+for n, dom in [("c13_p6_overflowing_dims", "'P6 65536 65536 255'"), ("c13_p6_huge_width", "'P6 4294967295 2 255'"), ("c13_p5_large", "'P5 40000 40000 255'"), ("c13_p6_dim_too_big_for_u32", "'P6 4294967296 1 255'")]:
+    H(P, "c13", n, ("bare",), dom + " ++ <= 4 arbitrary bytes", "Err, never a panic", unwind=40, est=60)
+H(P, "c13", "c13_bad_magic_total", ("bare",), "any 2-byte magic other than P2..P6 ++ 3 arbitrary bytes, truncated anywhere", "Err(Unsupported(magic)) / Err(UnexpectedEnd); no panic", unwind=24, est=60)
+H(P, "c13", "c13_roundtrip_2x2_view", ("std",), "2x2 sub-view at any offset of a 3x3 image with arbitrary pixel bytes", "read_pnm(write_ppm(view)) == view", unwind=40, est=600, cap=1500)
+
+# ---------------------------------------------------------------- C17
+P = "C17"
+BOUNDS[P] = "evaluators: integer control points in [-2,2]^4 (f32, Vec2, Point2), t in {1/4,1/2,3/4} (exact lattice); ends/totality: every float t and control point incl. NaN; spline segments: n = 1..3 segments, every float t in (0,1), symbolic float control points |p| <= 100; joins: n = 1..4, integer control points in [-4,4]"
+OUTSIDE[P] = ["agreement of eval and fast_eval on arbitrary floats (tolerance proof)", "approximate(): subdivision recursion with symbolic halt predicate (Vec pushes in a recursive function)", "segment counts above 4; 3-D and colour instances", "BezierSpline::tangent scaling by the segment count"]
+LEVEL_TEXT[P] = ("Bounded model checking: evaluators and tangent against the integer Bernstein form on an exact lattice, end-point and NaN behaviour for all floats, "
+                 "spline segment selection bit-identical to the per-segment cubic for every float parameter, join interpolation.")
+H(P, "c17", "c17_evaluators_lattice_f32", ("bare",), "integer control points [-2,2]^4, t = k/4", "eval*64 == fast_eval*64 == Bernstein integer form; tangent*16 == derivative; inside control bounds", est=120, cap=900)
+H(P, "c17", "c17_evaluators_lattice_2d", ("bare",), "Vec2 and Point2 instances, same lattice", "componentwise Bernstein form, eval and fast_eval", unwind=4, est=300, cap=900)
+H(P, "c17", "c17_ends_and_totality", ("bare",), "every float t, every 4 float control points (NaN/inf incl.)", "t<=0 => p0, t>=1 => p3 bitwise (eval, fast_eval, spline); tangent clamps; no panic", unwind=6, est=60)
+for n, s, np in [(1, 0, 4), (2, 0, 7), (2, 1, 7), (3, 0, 10), (3, 1, 10), (3, 2, 10)]:
+    H(P, "c17", f"c17_segment_n{n}_s{s}", ("bare",), f"{n}-segment spline, every float t in (0,1) selecting segment {s}, {np} symbolic float control points", "eval(t) bit-identical to CubicBezier(pts[3s..3s+4]).fast_eval(t*n - s)", unwind=12, est=120, cap=900)
+for n in (1, 2, 3, 4):
+    H(P, "c17", f"c17_joins_n{n}", ("bare",), f"{n}-segment spline, integer control points in [-4,4], t = k/{n}", "eval(k/n) == control point 3k (1e-3); eval(0), eval(1) are the end points", unwind=16, est=120, cap=900)
+H(P, "c17", "c17_new_rejects_bad_length", ("bare",), "every length <= 12 that is not 3n+1 (n>=1)", "BezierSpline::new panics", kind="should_panic", unwind=16, est=30)
+H(P, "c17", "c17_smoothstep", ("bare",), "every float t; lattice k/16", "clamps outside [0,1]; fixed point 1/2; == 3t^2-2t^3 exactly on the lattice; in [0,1]", est=30)
+
+# ---------------------------------------------------------------- C18
+P = "C18"
+BOUNDS[P] = "unit conversions: every finite |a| in [1e-6,1e6]; cross conversion on the dyadic turn lattice k/64, |k| <= 4096; operators/min/max/clamp: all non-NaN floats"
+OUTSIDE[P] = ["wrap(): goes through float %, which CBMC cannot model (see the SMT engine)", "polar/spherical <-> Cartesian inverse-ness, azimuth/altitude ranges, sin^2+cos^2 = 1, sin_cos vs sin/cos: need transcendental values, which have no solver semantics"]
+LEVEL_TEXT[P] = ("Bounded model checking of the unit conversions (round trips within 4 ulp over the whole finite range) and of every arithmetic / ordering operation acting bit-for-bit on the radian magnitude. "
+                 "Wrapping is decided by the SMT engine; the trigonometric half of the property is undecided.")
+H(P, "c18", "c18_unit_round_trips", ("bare",), "every finite a with |a| in [1e-6, 1e6]", "rads exact; degs/turns round trips within 4 ulp; FULL/STRAIGHT/RIGHT consistent", est=300, cap=900)
+H(P, "c18", "c18_cross_conversion", ("bare",), "turns = k/64, |k| <= 4096", "turns(x) and degs(360x) within 4 ulp in radians and back", est=120, cap=900)
+H(P, "c18", "c18_ops_on_magnitude", ("bare",), "all non-NaN float triples", "+,-,neg,*,/,min,max,clamp, Affine, Linear act on the radian value bitwise", est=60)
